@@ -162,8 +162,11 @@ pub fn model_case(kind: &str, p: &Prepared, joined: Option<&[u8]>, files: &[Vec<
 
 enum Ref { T(usize), U(usize), Input }
 
-fn resolve(t: &TableDefinition, u: &TableDefinition, name: &str) -> Option<Ref> {
+fn resolve(t: &TableDefinition, u: &TableDefinition, name: &str, self_join: bool) -> Option<Ref> {
     if name == "input" { return Some(Ref::Input); }
+    // self-join: the table-qualified name is the only way to address the joined side, the plain name stays with the
+    // queried side ("both sides' columns addressable, a joined column whose name clashes only by its qualified name")
+    if self_join { if let Some(c) = name.strip_prefix("t.") { return u.index_for(c).map(Ref::U); } }
     if let Some(c) = name.strip_prefix("t.") { return t.index_for(c).map(Ref::T); }
     if let Some(c) = name.strip_prefix("u.") { return u.index_for(c).map(Ref::U); }
     // a plain name addresses the queried table's column when both tables have it
@@ -174,18 +177,18 @@ fn resolve(t: &TableDefinition, u: &TableDefinition, name: &str) -> Option<Ref> 
 pub struct Expected { pub records: Vec<String>, pub max_fanout: usize, pub null_keys: bool, pub padded: usize }
 
 /// expected records of `SELECT refs… AS c0…` (or `*` when `refs` is None) over the join, by the property sentence
-pub fn nested_loop(t: &TableDefinition, u: &TableDefinition, js: &JoinSpec, refs: Option<&[String]>, main: &[String], joined: &[String]) -> Option<Expected> {
+pub fn nested_loop(t: &TableDefinition, u: &TableDefinition, js: &JoinSpec, refs: Option<&[String]>, main: &[String], joined: &[String], self_join: bool) -> Option<Expected> {
     let ti = t.index_for(&js.tcol)?;
     let ui = u.index_for(&js.ucol)?;
     let urows: Vec<Vec<Value>> = joined.iter().map(|l| u.extract(l)).filter(|r| r.any_result()).map(|r| r.columns).collect();
     let mut out = Expected { records: Vec::new(), max_fanout: 0, null_keys: false, padded: 0 };
     // (name, reference) per output column
     let columns: Vec<(String, Ref)> = match refs {
-        Some(rs) => { let mut v = Vec::new(); for (i, r) in rs.iter().enumerate() { v.push((format!("c{}", i), resolve(t, u, r)?)); } v }
+        Some(rs) => { let mut v = Vec::new(); for (i, r) in rs.iter().enumerate() { v.push((format!("c{}", i), resolve(t, u, r, self_join)?)); } v }
         None => {
             let mut v: Vec<(String, Ref)> = t.columns.iter().enumerate().map(|(i, c)| (c.name.clone(), Ref::T(i))).collect();
             for (i, c) in u.columns.iter().enumerate() {
-                let name = if t.index_for(&c.name).is_some() { format!("u.{}", c.name) } else { c.name.clone() };
+                let name = if t.index_for(&c.name).is_some() { format!("{}.{}", u.name, c.name) } else { c.name.clone() };
                 v.push((name, Ref::U(i)));
             }
             v
@@ -281,7 +284,7 @@ pub fn run(p: &Params) -> Run {
                          format!("the run answered {} with {} records", result.status, result.records().len()));
             }
         } else if matches!(st.kind, Kind::Cols | Kind::Star) {
-            if let Some(exp) = nested_loop(&t, &u, &js, st.refs.as_deref(), &main, &joined) {
+            if let Some(exp) = nested_loop(&t, &u, &js, st.refs.as_deref(), &main, &joined, false) {
                 run.count(&format!("fanout:{}", exp.max_fanout.min(3)));
                 if exp.null_keys { run.count("null-keys-present"); }
                 if exp.padded > 0 { run.count("outer-padded-rows"); }
@@ -310,6 +313,63 @@ pub fn run(p: &Params) -> Run {
         let joined_opt: Option<&[u8]> = if broken == 3 { None } else { Some(&joined_bytes) };
         if let Some(case) = model_case("join", &prepared, joined_opt, &files, "") {
             let tag = format!("{}|{}|{}|sw{}|{}|b{}|f{}|m{}|j{}", kind_s, js.class, if js.outer { "outer" } else { "inner" }, js.swapped as u8, status_class, broken, files.len(), nm.min(3), nj.min(3));
+            run.case_with_desc(case, result.wire(), tag, desc);
+        }
+    }
+    // ----- self-join: t joined with itself through a second file; `t.col` must address the joined row -----
+    const SELF_KEYS: &[(&str, &str)] = &[("v", "w"), ("w", "v"), ("k", "s"), ("s", "k"), ("v", "v"), ("k", "k"), ("r", "r")];
+    const SELF_REFS: &[&str] = &["k", "v", "w", "r", "s", "t.k", "t.v", "t.w", "t.r", "t.s", "t.k", "t.v", "input"];
+    for i in 0..p.n(700, 15_000) {
+        let (a, b) = *rng.pick(SELF_KEYS);
+        let outer = rng.chance(2, 5);
+        // `ON t.a = t.b`: the left side is the queried row's column, the right side the joined row's (mirrors transform_join;
+        // the property sentence does not say which is which in a self-join)
+        let js = JoinSpec { tcol: a.to_owned(), ucol: b.to_owned(), class: "self", outer, swapped: false };
+        let clause = format!("{} JOIN t::'{}' ON t.{} = t.{}", if outer { "OUTER" } else { "INNER" }, jp, a, b);
+        let refs: Vec<String> = (0..rng.below(4) + 1).map(|_| (*rng.pick(SELF_REFS)).to_owned()).collect();
+        let proj = refs.iter().enumerate().map(|(i, r)| format!("{} AS c{}", r, i)).collect::<Vec<_>>().join(", ");
+        let (head, tail, kind_s, plain): (String, String, &str, Option<Option<Vec<String>>>) = match i % 6 {
+            0 | 1 => (format!("SELECT {}", proj), String::new(), "cols", Some(Some(refs.clone()))),
+            2 => ("SELECT *".to_owned(), String::new(), "star", Some(None)),
+            3 => (format!("SELECT {}", proj), format!(" WHERE {}", rng.pick(&["t.v > 0", "t.k = k", "t.w IS NOT NULL AND v < 2", "t.s != s", "t.v + v > 1"])), "where", None),
+            4 => {
+                let g = *rng.pick(&["", "t.k", "k", "t.v"]);
+                let items = format!("{}COUNT(t.k), SUM(t.v), MAX(v), COUNT(*)", if g.is_empty() { String::new() } else { format!("{}, ", g) });
+                (format!("SELECT {}", items), if g.is_empty() { String::new() } else { format!(" GROUP BY {}", g) }, "agg", None)
+            }
+            _ => (format!("SELECT DISTINCT {}", proj), String::new(), "distinct", None),
+        };
+        let nm = 1 + rng.below(10);
+        let nj = rng.below(12);
+        let main: Vec<String> = (0..nm).map(|_| gen_t_line(&mut rng, 15)).collect();
+        let joined: Vec<String> = (0..nj).map(|_| gen_t_line(&mut rng, 15)).collect();
+        let files = split_files(&mut rng, &main);
+        let joined_bytes = join_lines(&joined);
+        std::fs::write(&jpath, &joined_bytes).unwrap();
+        let query = format!("{} FROM t {}{}", head, clause, tail);
+        let prepared = match prepare(&defs, &query) {
+            Ok(p) => p,
+            Err(e) => { run.count(&format!("rejected:{}", e.split(':').next().unwrap_or(""))); continue; }
+        };
+        let result = run_files(&prepared, &files);
+        let desc = format!("query={} main={:?} files={} joined={:?}", query.replace(&jp, "J"), main, files.len(), joined);
+        run.count("kind:self-join");
+        run.oracle_checks += 1;
+        if result.status == "panic" { run.fail(desc.clone(), "panic:join", "the self-joined run panicked".to_owned()); }
+        if let Some(refs_opt) = &plain {
+            if let Some(exp) = nested_loop(&t, &t, &js, refs_opt.as_deref(), &main, &joined, true) {
+                if result.status != "ok" {
+                    run.fail(desc.clone(), "join-run-failed", format!("a plain projection over the self-join answered {}", result.status));
+                } else if result.records() != exp.records {
+                    let got = result.records();
+                    let class = if got.len() > exp.records.len() { "join-extra-rows" } else if got.len() < exp.records.len() { "join-missing-rows" } else { "self-join-side-not-addressable" };
+                    run.fail(desc.clone(), class, format!("printed {:?} but the nested loop (t.col = joined row, col = queried row) gives {:?}", got, exp.records));
+                }
+            }
+        }
+        if let Some(case) = model_case("join", &prepared, Some(&joined_bytes), &files, "") {
+            let status_class = if result.status == "ok" { if result.records().is_empty() { "ok-empty" } else { "ok-rows" } } else { result.status.as_str() };
+            let tag = format!("self|{}|{}{}|{}|{}|f{}", kind_s, a, b, if outer { "outer" } else { "inner" }, status_class, files.len());
             run.case_with_desc(case, result.wire(), tag, desc);
         }
     }
@@ -352,6 +412,7 @@ pub fn run(p: &Params) -> Run {
     }
     let _ = std::fs::remove_file(jpath);
     run.notes.push("tables t(k TEXT, v INT, w INT, r REAL, s TEXT) and u(k TEXT, v INT, y TEXT, r REAL): k, v, r clash; join keys TEXT/INT/REAL/mismatched types, 5-60% NULL fields, 0-13 lines per side over 5 key values, 1-3 input files; ON in both orders; INNER/OUTER; plain projections (aliased), *, WHERE, aggregates, DISTINCT, LIMIT; one case in eight with an unknown join column or a missing joined file".to_owned());
+    run.notes.push("self-join block: t joined with itself through a second file on two different (or the same) columns, INNER/OUTER; projections of t.col (joined row) and col (queried row), *, WHERE / aggregates / DISTINCT on qualified names; nested-loop oracle for projections and *, Lean spec + model for all".to_owned());
     run.notes.push("oracle: independent nested loop (Rust) for plain projections and *; the Lean nested-loop specification answers every case without LIMIT (three-way comparison); ON-side swap compared on every third case".to_owned());
     run
 }
